@@ -60,4 +60,44 @@ theorem decode_encode (bs : List UInt8) : decode (encode bs) = some bs := by
       · exact byte_eq b _ (by omega)
       · congr 1; exact byte_eq c _ (by omega)
 
+theorem enc_safe_lt : ∀ n, n < 64 → enc n ≠ '\r' ∧ enc n ≠ ' ' := by decide +kernel
+
+theorem enc_safe (n : Nat) : enc n ≠ '\r' ∧ enc n ≠ ' ' := by
+  by_cases h : n < 64
+  · exact enc_safe_lt n h
+  · have : alphabet.length = 64 := by decide
+    have hn : alphabet[n]? = none := by
+      rw [List.getElem?_eq_none_iff]; omega
+    simp [enc, List.getD, hn]
+
+/-- base64 text contains neither CR nor blank. -/
+theorem encode_safe (bs : List UInt8) : ∀ c ∈ encode bs, c ≠ '\r' ∧ c ≠ ' ' := by
+  fun_induction encode bs with
+  | case1 => simp
+  | case2 a =>
+    intro c hc
+    simp only [List.mem_cons, List.not_mem_nil, or_false] at hc
+    rcases hc with rfl | rfl | rfl | rfl
+    · exact enc_safe _
+    · exact enc_safe _
+    · decide
+    · decide
+  | case3 a b =>
+    intro c hc
+    simp only [List.mem_cons, List.not_mem_nil, or_false] at hc
+    rcases hc with rfl | rfl | rfl | rfl
+    · exact enc_safe _
+    · exact enc_safe _
+    · exact enc_safe _
+    · decide
+  | case4 a b c rest ih =>
+    intro x hx
+    simp only [List.mem_cons] at hx
+    rcases hx with rfl | rfl | rfl | rfl | hx
+    · exact enc_safe _
+    · exact enc_safe _
+    · exact enc_safe _
+    · exact enc_safe _
+    · exact ih x hx
+
 end WS.Lemmas.B64
